@@ -6,8 +6,10 @@ import (
 	"sort"
 
 	"github.com/LemoFoundationLtd/lemochain-core/chain/deputynode"
+	"github.com/LemoFoundationLtd/lemochain-core/chain/params"
 	"github.com/LemoFoundationLtd/lemochain-core/chain/types"
 	"github.com/LemoFoundationLtd/lemochain-core/common"
+	"github.com/LemoFoundationLtd/lemochain-core/store"
 	"pgregory.net/rapid"
 )
 
@@ -19,6 +21,7 @@ type Scenario struct {
 	Gen     *TxGen
 	Blocks  []*types.Block      // every block mined, in order
 	Offered map[common.Hash][]*GenTx // block hash -> candidate list the miner was given
+	Packaged map[common.Hash]bool // transactions (and box sub transactions) on the chain so far: a pool would not offer them again
 	Keys    Keys                // key universe harvested from change logs
 	Addrs   map[common.Address]bool
 	History []string
@@ -27,13 +30,40 @@ type Scenario struct {
 // Funding is how much each user gets in block 1 (whole LEMO). Users 0 and 1 can afford a candidate deposit.
 var Funding = []int64{6000900, 5000400, 1000, 450, 199, 20000}
 
+// Options of a scenario beyond the deputy count and the transaction mix.
+type Options struct {
+	Deputies        int
+	Weights         Weights
+	TermDuration    uint32 // 0: production value
+	InterimDuration uint32
+	MaxCandidates   int // 0: production value (20)
+	DeputyCount     int // configured maximum number of deputies (0: 17)
+}
+
 // NewScenario builds the world (d deputies, len(Funding) users), both nodes, and mines + validates the funding block.
 func NewScenario(d int, weights Weights) *Scenario {
+	return NewScenarioWith(Options{Deputies: d, Weights: weights})
+}
+
+// NewScenarioWith is NewScenario with small terms / candidate lists.
+func NewScenarioWith(o Options) *Scenario {
 	ResetGlobals()
+	if o.TermDuration != 0 {
+		params.TermDuration = o.TermDuration
+		params.InterimDuration = o.InterimDuration
+		params.RewardCheckHeight = 1
+	}
+	if o.MaxCandidates != 0 {
+		store.VerifSetMaxCandidateCount(o.MaxCandidates)
+	}
+	if o.DeputyCount == 0 {
+		o.DeputyCount = 17
+	}
+	d, weights := o.Deputies, o.Weights
 	w := NewWorld("w", d, len(Funding))
-	s := &Scenario{W: w, Gen: NewTxGen(w, weights), Offered: map[common.Hash][]*GenTx{}, Addrs: map[common.Address]bool{}}
-	s.F = NewNode(w, w.Deputies[0], 17)
-	s.V = NewNode(w, nil, 17)
+	s := &Scenario{W: w, Gen: NewTxGen(w, weights), Offered: map[common.Hash][]*GenTx{}, Addrs: map[common.Address]bool{}, Packaged: map[common.Hash]bool{}}
+	s.F = NewNode(w, w.Deputies[0], o.DeputyCount)
+	s.V = NewNode(w, nil, o.DeputyCount)
 	for _, a := range w.AllAddresses() {
 		s.Addrs[a] = true
 	}
@@ -62,6 +92,14 @@ func (s *Scenario) NoteBlock(b *types.Block, offered []*GenTx) {
 		s.Addrs[a] = true
 	}
 	for _, tx := range b.Txs {
+		s.Packaged[tx.Hash()] = true
+		if tx.Type() == params.BoxTx {
+			if box, err := types.GetBox(tx.Data()); err == nil {
+				for _, sub := range box.SubTxList {
+					s.Packaged[sub.Hash()] = true
+				}
+			}
+		}
 		s.Addrs[tx.From()] = true
 		if tx.To() != nil {
 			s.Addrs[*tx.To()] = true
@@ -81,12 +119,10 @@ func (s *Scenario) AddrList() []common.Address {
 
 // ConfirmAll hands the confirms of all deputies other than the miner to both nodes (makes the block stable).
 func (s *Scenario) ConfirmAll(b *types.Block) {
-	if len(s.W.Deputies) == 1 {
-		return
-	}
 	var sigs []types.SignData
-	for _, d := range s.W.Deputies {
-		if d.Miner.Addr != b.MinerAddress() {
+	for rank := range s.F.DM.GetDeputiesByHeight(b.Height(), true) {
+		d := s.F.DeputyAt(b.Height(), rank)
+		if d != nil && d.Miner.Addr != b.MinerAddress() {
 			sigs = append(sigs, ConfirmAs(b, d))
 		}
 	}
@@ -127,10 +163,37 @@ func (s *Scenario) NextSlot(t *rapid.T, parent *types.Block) (*Deputy, uint32) {
 func (s *Scenario) GenBlockTxs(t *rapid.T, parent *types.Block, blockTime uint32, n int) []*GenTx {
 	view := s.F.View(parent.Hash())
 	res := make([]*GenTx, 0, n)
+	seen := map[common.Hash]bool{}
 	for i := 0; i < n; i++ {
-		res = append(res, s.Gen.Draw(t, view, blockTime))
+		g := s.Gen.Draw(t, view, blockTime)
+		// the candidate list comes from a pool: it holds no transaction that is on the chain already and none twice
+		if s.Fresh(g.Tx, seen) {
+			res = append(res, g)
+		}
 	}
 	return res
+}
+
+// Fresh says whether a pool could still hold tx (neither it nor, for a box, any sub transaction is on the chain or in
+// `seen`), and marks it seen.
+func (s *Scenario) Fresh(tx *types.Transaction, seen map[common.Hash]bool) bool {
+	hashes := []common.Hash{tx.Hash()}
+	if tx.Type() == params.BoxTx {
+		if box, err := types.GetBox(tx.Data()); err == nil {
+			for _, sub := range box.SubTxList {
+				hashes = append(hashes, sub.Hash())
+			}
+		}
+	}
+	for _, h := range hashes {
+		if s.Packaged[h] || seen[h] {
+			return false
+		}
+	}
+	for _, h := range hashes {
+		seen[h] = true
+	}
+	return true
 }
 
 // Txs extracts the transactions of a candidate list.
